@@ -414,3 +414,6 @@ O("C16.refill", ["C16", "C01", "C05", "C09"], "h_C16.c", "h_C16_refill",
   "refill at the 64-occurrence boundary: 63 delivered and the 64th held back as the next seed (never lost, never twice), shorter batches end the stream, COUNT decreases by exactly the number delivered; for every FREQ and COUNT",
   ["refill"], solver=["minisat", "kissat"], timeout={"quick": 600, "thorough": 1800}, unwind=66, replay=False, replay_note="filler stubs use nondet results",
   assumptions=["the seven fillers are represented by a stub with their contract (n <= asked, n <= COUNT); zone offset, rescale and sort by identity stubs"])
+# C05.send_task.limits (harness h_C05_send_task_limits exists) is not registered: CBMC's model of variadic calls does not
+# apply the default argument promotions to bit-field arguments (t->max_simul is unsigned:6), so va_arg(ap, int) in the
+# recorder reads out of bounds - a tool limit, the failure is spurious.
